@@ -136,7 +136,8 @@ def run_shard(ctx):
             # magnitudes log-uniform, jittered around powers of two
             def draw(neg_ok):
                 k = int(rng.integers(0, 65))
-                v = 2 ** k + int(rng.integers(-3, 4)) if rng.random() < 0.5 else int(rng.integers(0, 2 ** k + 1))
+                v = 2 ** k + int(rng.integers(-3, 4)) if rng.random() < 0.5 else \
+                    ((int(rng.integers(0, 2 ** 32)) << 33) | int(rng.integers(0, 2 ** 33))) % (2 ** k + 1)
                 v = max(v, 0)
                 if neg_ok and rng.random() < 0.5:
                     v = -v
